@@ -480,7 +480,10 @@ impl World {
                 "self_addr": pi.contract_addr,
             }));
         }
-        json!({"bank": bank, "tok": tok, "pair": pairs, "fac": self.factory_state(), "router": self.router})
+        // contracts are numbered in instantiation order: factory, router, tokens, then (pair, LP token) per pair
+        let nextc = 2 + self.tokens.len() + 2 * self.pairs.len();
+        json!({"bank": bank, "tok": tok, "pair": pairs, "fac": self.factory_state(), "router": self.router,
+               "nextc": nextc, "light": self.light})
     }
 
     // -----------------------------------------------------------------------------------------
@@ -871,7 +874,16 @@ impl World {
         for d in self.denoms.iter() {
             m.insert(d.clone(), json!(d.as_bytes().iter().map(|b| *b as u32).collect::<Vec<u32>>()));
         }
-        for a in self.accounts().iter() {
+        let mut names: Vec<String> = self.accounts();
+        for p in self.pairs.iter() {
+            names.push(p.addr.clone());
+            names.push(p.lp.clone());
+        }
+        let n = 2 + self.tokens.len() + 2 * self.pairs.len();
+        for i in n..(n + 100) {
+            names.push(format!("contract{}", i));
+        }
+        for a in names.iter() {
             if let Ok(c) = MockApi::default().addr_canonicalize(a) {
                 m.insert(a.clone(), json!(c.as_slice().iter().map(|b| *b as u32).collect::<Vec<u32>>()));
             }
